@@ -149,41 +149,41 @@ Qed.
 (* ------------------------------------------------------------------ *)
 (* The read built-in takes whole lines.                                *)
 
-Lemma line_read_nl (raw : bool) (r : list N) :
-  line_read raw (split_lines (NL :: r)) = ([], true, split_lines r, 1).
+Lemma line_read_at_nl (raw : bool) (r : list N) :
+  line_read_nl raw (split_lines (NL :: r)) = ([], true, split_lines r, 1).
 Proof. reflexivity. Qed.
 
 Lemma line_read_plain (raw : bool) (b : N) (r : list N) :
   N.eqb b NL = false -> negb raw && N.eqb b BSL = false ->
-  line_read raw (split_lines (b :: r)) =
-  let '(cs, f, ls, m) := line_read raw (split_lines r) in ((b, false) :: cs, f, ls, 1 + m).
+  line_read_nl raw (split_lines (b :: r)) =
+  let '(cs, f, ls, m) := line_read_nl raw (split_lines r) in ((b, false) :: cs, f, ls, 1 + m).
 Proof.
   intros Hnl Hbs. cbn [split_lines]. rewrite Hnl.
   destruct (split_lines r) as [|l ls].
-  - cbn [line_read scan_line]. rewrite Hnl, Hbs. reflexivity.
-  - cbn [line_read]. cbn [scan_line]. rewrite Hnl, Hbs.
+  - cbn [line_read_nl scan_line]. rewrite Hnl, Hbs. reflexivity.
+  - cbn [line_read_nl]. cbn [scan_line]. rewrite Hnl, Hbs.
     destruct (scan_line raw l) as [cs e]. rewrite nlen_cons.
     destruct e; try reflexivity.
-    destruct (line_read raw ls) as [[[cs' f] r'] m]. cbn [app]. f_equal. lia.
+    destruct (line_read_nl raw ls) as [[[cs' f] r'] m]. cbn [app]. f_equal. lia.
 Qed.
 
 Lemma line_read_bs_end (r : list N) :
-  line_read false (split_lines [BSL]) = ([], false, [], 1).
+  line_read_nl false (split_lines [BSL]) = ([], false, [], 1).
 Proof. reflexivity. Qed.
 
 Lemma line_read_bs_nl (r : list N) :
-  line_read false (split_lines (BSL :: NL :: r)) =
-  let '(cs, f, ls, m) := line_read false (split_lines r) in (cs, f, ls, 2 + m).
+  line_read_nl false (split_lines (BSL :: NL :: r)) =
+  let '(cs, f, ls, m) := line_read_nl false (split_lines r) in (cs, f, ls, 2 + m).
 Proof.
   change (split_lines (BSL :: NL :: r)) with ([BSL; NL] :: split_lines r).
-  cbn [line_read]. change (scan_line false [BSL; NL]) with (@nil (N * bool), LCont).
-  destruct (line_read false (split_lines r)) as [[[cs f] ls] m]. reflexivity.
+  cbn [line_read_nl]. change (scan_line false [BSL; NL]) with (@nil (N * bool), LCont).
+  destruct (line_read_nl false (split_lines r)) as [[[cs f] ls] m]. reflexivity.
 Qed.
 
 Lemma line_read_bs_char (c : N) (r : list N) :
   N.eqb c NL = false ->
-  line_read false (split_lines (BSL :: c :: r)) =
-  let '(cs, f, ls, m) := line_read false (split_lines r) in ((c, true) :: cs, f, ls, 2 + m).
+  line_read_nl false (split_lines (BSL :: c :: r)) =
+  let '(cs, f, ls, m) := line_read_nl false (split_lines r) in ((c, true) :: cs, f, ls, 2 + m).
 Proof.
   intros Hc.
   assert (E : split_lines (BSL :: c :: r) =
@@ -194,13 +194,13 @@ Proof.
   { cbn [split_lines]. change (N.eqb BSL NL) with false. cbv iota. rewrite Hc.
     destruct (split_lines r); reflexivity. }
   rewrite E. destruct (split_lines r) as [|l ls].
-  - cbn [line_read scan_line]. change (N.eqb BSL NL) with false. cbn [negb andb].
+  - cbn [line_read_nl scan_line]. change (N.eqb BSL NL) with false. cbn [negb andb].
     change (N.eqb BSL BSL) with true. cbv iota. rewrite Hc. reflexivity.
-  - cbn [line_read]. cbn [scan_line]. change (N.eqb BSL NL) with false.
+  - cbn [line_read_nl]. cbn [scan_line]. change (N.eqb BSL NL) with false.
     change (negb false && N.eqb BSL BSL) with true. cbv iota. rewrite Hc.
     destruct (scan_line false l) as [cs e]. rewrite !nlen_cons.
     destruct e; try (f_equal; lia).
-    destruct (line_read false ls) as [[[cs' f] r'] m]. cbn [app]. f_equal. lia.
+    destruct (line_read_nl false ls) as [[[cs' f] r'] m]. cbn [app]. f_equal. lia.
 Qed.
 
 (* what [read_text] observes of a final scanner state *)
@@ -214,8 +214,8 @@ Definition read_view (res : (list (N * bool) * bool * N) * option (list N))
 
 Lemma read_flat_aux (raw : bool) (len : nat) :
   forall (x : list N) acc n, (length x <= len)%nat ->
-  read_view (scan_chunk (read_step raw) (acc, false, n) x) =
-  let '(cs, f, ls, m) := line_read raw (split_lines x) in (acc ++ cs, f, ls, n + m).
+  read_view (scan_chunk (read_step raw NL) (acc, false, n) x) =
+  let '(cs, f, ls, m) := line_read_nl raw (split_lines x) in (acc ++ cs, f, ls, n + m).
 Proof.
   induction len as [|len IH]; intros x acc n Hlen.
   - destruct x; [|cbn in Hlen; lia]. cbn. now rewrite app_nil_r, N.add_0_r.
@@ -223,7 +223,7 @@ Proof.
     { cbn. now rewrite app_nil_r, N.add_0_r. }
     cbn [length] in Hlen. cbn [scan_chunk]. unfold read_step at 1.
     destruct (N.eqb b NL) eqn:Hnl.
-    { apply N.eqb_eq in Hnl. subst b. rewrite line_read_nl. cbn.
+    { apply N.eqb_eq in Hnl. subst b. rewrite line_read_at_nl. cbn.
       now rewrite app_nil_r. }
     destruct (negb raw && N.eqb b BSL) eqn:Hbs.
     + (* backslash in non-raw mode *)
@@ -234,30 +234,78 @@ Proof.
       * cbn [scan_chunk]. unfold read_step at 1. destruct (N.eqb c NL) eqn:Hc.
         -- apply N.eqb_eq in Hc. subst c. rewrite line_read_bs_nl.
            rewrite IH by (cbn [length] in Hlen; lia).
-           destruct (line_read false (split_lines r2)) as [[[cs f] ls] m]. f_equal. lia.
+           destruct (line_read_nl false (split_lines r2)) as [[[cs f] ls] m]. f_equal. lia.
         -- rewrite line_read_bs_char by exact Hc.
            rewrite IH by (cbn [length] in Hlen; lia).
-           destruct (line_read false (split_lines r2)) as [[[cs f] ls] m].
+           destruct (line_read_nl false (split_lines r2)) as [[[cs f] ls] m].
            rewrite <- app_assoc. cbn [app]. f_equal. lia.
     + rewrite line_read_plain by assumption.
       rewrite IH by lia.
-      destruct (line_read raw (split_lines r)) as [[[cs f] ls] m].
+      destruct (line_read_nl raw (split_lines r)) as [[[cs f] ls] m].
       rewrite <- app_assoc. cbn [app]. f_equal. lia.
 Qed.
 
-Lemma read_text_lines (raw : bool) (d : dev) :
-  let '(cs, f, ls, m) := line_read raw (split_lines (concat d)) in
-  exists d', read_text raw d = (cs, f, d', m) /\ split_lines (concat d') = ls.
+(* any delimiter: the scanner computes [flat_read] *)
+Definition read_view2 (res : (list (N * bool) * bool * N) * option (list N))
+  : list (N * bool) * option (list N) * N :=
+  let '((acc, _, n), o) := res in (acc, o, n).
+
+Lemma read_flat_d (raw : bool) (d : N) : forall (x : list N) acc esc n,
+  read_view2 (scan_chunk (read_step raw d) (acc, esc, n) x) =
+  let '(cs, f, rest, m) := flat_read raw d esc x in
+  (acc ++ cs, if f then Some rest else None, n + m).
 Proof.
-  unfold read_text.
-  pose proof (scan_flat (read_step raw) ([], false, 0) d) as H.
-  pose proof (read_flat_aux raw (length (concat d)) (concat d) [] 0 (le_n _)) as Hv.
-  destruct (line_read raw (split_lines (concat d))) as [[[cs f] ls] m].
-  cbn [app] in Hv. rewrite N.add_0_l in Hv.
-  destruct (scan_chunk (read_step raw) ([], false, 0) (concat d)) as [[[acc esc] n] [rest|]];
-    cbn [read_view] in Hv; inversion Hv; subst; destruct H as [d' [-> Hc]]; exists d'.
-  - split; [reflexivity | now rewrite Hc].
-  - split; [reflexivity | now rewrite Hc].
+  induction x as [|b r IH]; intros acc esc n; cbn [scan_chunk flat_read].
+  - cbn. now rewrite app_nil_r, N.add_0_r.
+  - unfold read_step at 1. destruct esc.
+    + destruct (N.eqb b NL).
+      * rewrite IH. destruct (flat_read raw d false r) as [[[cs f] rest] m]. f_equal. lia.
+      * rewrite IH. destruct (flat_read raw d false r) as [[[cs f] rest] m].
+        rewrite <- app_assoc. cbn [app]. f_equal. lia.
+    + destruct (N.eqb b d).
+      * cbn. now rewrite app_nil_r.
+      * destruct (negb raw && N.eqb b BSL).
+        -- rewrite IH. destruct (flat_read raw d true r) as [[[cs f] rest] m]. f_equal. lia.
+        -- rewrite IH. destruct (flat_read raw d false r) as [[[cs f] rest] m].
+           rewrite <- app_assoc. cbn [app]. f_equal. lia.
+Qed.
+
+Lemma flat_read_not_found (raw : bool) (d : N) : forall x esc,
+  let '(_, f, rest, _) := flat_read raw d esc x in f = false -> rest = [].
+Proof.
+  induction x as [|b r IH]; intros esc; cbn [flat_read]; [reflexivity|].
+  destruct esc.
+  - specialize (IH false). destruct (flat_read raw d false r) as [[[cs f] rest] m].
+    destruct (N.eqb b NL); exact IH.
+  - destruct (N.eqb b d); [discriminate|]. destruct (negb raw && N.eqb b BSL).
+    + specialize (IH true). destruct (flat_read raw d true r) as [[[cs f] rest] m]. exact IH.
+    + specialize (IH false). destruct (flat_read raw d false r) as [[[cs f] rest] m]. exact IH.
+Qed.
+
+Lemma read_text_lines (raw : bool) (d : N) (dv : dev) :
+  let '(cs, f, ls, m) := line_read raw d (split_lines (concat dv)) in
+  exists d', read_text raw d dv = (cs, f, d', m) /\ split_lines (concat d') = ls.
+Proof.
+  unfold read_text, line_read.
+  pose proof (scan_flat (read_step raw d) ([], false, 0) dv) as H.
+  destruct (N.eqb d NL) eqn:Ed.
+  - apply N.eqb_eq in Ed. subst d.
+    pose proof (read_flat_aux raw (length (concat dv)) (concat dv) [] 0 (le_n _)) as Hv.
+    destruct (line_read_nl raw (split_lines (concat dv))) as [[[cs f] ls] m].
+    cbn [app] in Hv. rewrite N.add_0_l in Hv.
+    destruct (scan_chunk (read_step raw NL) ([], false, 0) (concat dv)) as [[[acc esc] n] [rest|]];
+      cbn [read_view] in Hv; inversion Hv; subst; destruct H as [d' [-> Hc]]; exists d'.
+    + split; [reflexivity | now rewrite Hc].
+    + split; [reflexivity | now rewrite Hc].
+  - rewrite concat_split_lines.
+    pose proof (read_flat_d raw d (concat dv) [] false 0) as Hv.
+    pose proof (flat_read_not_found raw d (concat dv) false) as Hnf.
+    destruct (flat_read raw d false (concat dv)) as [[[cs f] rest] m].
+    cbn [app] in Hv. rewrite N.add_0_l in Hv.
+    destruct (scan_chunk (read_step raw d) ([], false, 0) (concat dv)) as [[[acc esc] n] o].
+    cbn [read_view2] in Hv. inversion Hv; subst. destruct f.
+    + destruct H as [d' [-> Hc]]. exists d'. split; [reflexivity | now rewrite Hc].
+    + destruct H as [d' [-> Hc]]. exists d'. split; [reflexivity|]. now rewrite Hc, Hnf.
 Qed.
 
 (* ------------------------------------------------------------------ *)
@@ -310,14 +358,14 @@ Proof.
   - destruct ls0 as [|l ls0]; repeat split; constructor.
 Qed.
 
-Lemma read_refines (raw : bool) (d : dev) (ls : list line) :
+Lemma read_refines (raw : bool) (dl : N) (d : dev) (ls : list line) :
   RI d ls ->
-  let '(c1, f1, d1, n1) := read_text raw d in
-  let '(c2, f2, ls2, n2) := line_read raw ls in
+  let '(c1, f1, d1, n1) := read_text raw dl d in
+  let '(c2, f2, ls2, n2) := line_read raw dl ls in
   c1 = c2 /\ f1 = f2 /\ n1 = n2 /\ RI d1 ls2.
 Proof.
-  intros HI. unfold RI in HI. subst ls. pose proof (read_text_lines raw d) as H.
-  destruct (line_read raw (split_lines (concat d))) as [[[cs f] ls] m].
+  intros HI. unfold RI in HI. subst ls. pose proof (read_text_lines raw dl d) as H.
+  destruct (line_read raw dl (split_lines (concat d))) as [[[cs f] ls] m].
   destruct H as [d' [-> Hd]]. repeat split. unfold RI. now rewrite Hd.
 Qed.
 
